@@ -196,6 +196,9 @@ def run(ctx):
                     v = rnd.choice(spec["inputs"])
                     lo_, hi_ = (v["minimum"] if math.isfinite(v["minimum"]) else -5.0), (v["maximum"] if math.isfinite(v["maximum"]) else 5.0)
                     v["terms"] += [E.G.shape_term(rnd, f"x{v['name']}{j}", lo_, hi_, d=d) for j in range(7)]
+                for o in spec["outputs"]:
+                    if rnd.random() < 0.15:
+                        o["default_value"] = rnd.choice([0.0, -0.0])
                 # "every engine": also those that were not put together with constructors
                 spec["route"] = rnd.choice(["constructors", "constructors", "factories", "fll", "configure", "rule-create-with-engine"])
                 try:
@@ -204,8 +207,17 @@ def run(ctx):
                     ctx.hit(f"inconclusive:generated engine does not build: {type(ex).__name__}: {str(ex)[:60]}")
                     continue
                 ctx.hit("route:" + spec["route"])
+                if rnd.random() < 0.5:
+                    # attributes assigned after construction (what an importer or an application does) hold exactly what was assigned
+                    by_name = {o["name"]: o for o in spec["outputs"]}
+                    for ov in engine.output_variables:
+                        if ov.name in by_name:
+                            ov.default_value = by_name[ov.name]["default_value"]
+                    ctx.hit("workload:attributes assigned after construction")
                 if rnd.random() < 0.3:
                     E.retype(ctx, fl, rnd, engine)
+                if rnd.random() < 0.25 and E.rejected_edit(rnd, engine):
+                    ctx.hit("workload:a rule was given a text that the parser rejected")
                 for a, alias in enumerate(ALIASES):
                     with fl.settings.context(alias=alias):
                         for encapsulated in (False, True):
@@ -250,7 +262,7 @@ def run(ctx):
                     pass
         probe.report(ctx)
         reach.report(ctx)
-    ctx.require("component:term built by factory and configure", "compare:dedicated method input_variable", "compare:dedicated method rule_block", "compare:dedicated method term", "compare:dedicated method norm")
+    ctx.require("workload:a rule was given a text that the parser rejected", "component:term built by factory and configure", "compare:dedicated method input_variable", "compare:dedicated method rule_block", "compare:dedicated method term", "compare:dedicated method norm")
     ctx.require("hook:PythonExporter.to_string", "compare:identical outputs", "kind:Engine", "kind:Term", "kind:InputVariable", "kind:OutputVariable", "kind:RuleBlock", "kind:Rule", "kind:Norm", "kind:Defuzzifier", "kind:Activation")
     for alias in ALIASES:
         for enc in ("plain", "encapsulated"):
